@@ -1334,3 +1334,166 @@ class C20:
 
 
 CHECKS['C20'] = C20
+
+
+# ================================================================================================
+# C21: two fix8 sessions deliver every application message across drops and restarts
+# ================================================================================================
+class C21:
+    id = 'C21'
+    level = 'exploration'
+    build = [('asan', 'fx')]
+    workers = 8
+    examples = 500
+    assumptions = ['initiator and acceptor are two real Session/Connection pairs in one executor (coroutine model), each on its own FilePersister; the harness is the wire: bytes written by one '
+                   'side are fed to the other side when the schedule says "pump"; bytes still in flight at a drop are lost',
+                   'a failure always ends both session objects (a broken connection ends the acceptor\'s session instance as well); both are rebuilt from their files and log on again. '
+                   'drop = bytes in flight in both directions lost; restart of one side = bytes in flight towards that side lost, bytes it had already put on the wire still arrive',
+                   'failures happen between operations (the statement\'s crash-point granularity); no timers run (heartbeat supervision is C22)',
+                   'quiescence: at the end each side sends one more application message and everything is pumped until nothing is in flight']
+    rule = ('Hypothesis draws a FIX version and a schedule of 1-25 operations: A sends 1-4 application messages, B sends 1-4, pump (deliver everything in flight until quiescent), drop, '
+            'restart A, restart B. Oracle at the final quiescence: every application message id reached the peer application at least once; first deliveries are in send order; every '
+            're-delivery carries PossDupFlag=Y; no Logout was ever put on the wire and both sessions are established; pumping always reaches quiescence. Non-trivial: a failure with '
+            'application messages in flight, followed by further sends.')
+
+    def __init__(self, tier):
+        self.tier = tier
+        if tier == 'thorough':
+            self.examples = 10000
+            self.workers = 16
+
+    def make_executor(self):
+        return executor()
+
+    def strategy(self):
+        op = st.one_of(st.tuples(st.just('a_send'), st.integers(1, 4)), st.tuples(st.just('b_send'), st.integers(1, 4)),
+                       st.tuples(st.just('pump')), st.tuples(st.just('pump')),
+                       st.tuples(st.just('drop')), st.tuples(st.just('restart_a')), st.tuples(st.just('restart_b')))
+        return st.fixed_dictionaries({'schema': st.sampled_from(['UTEST', 'F44']), 'ops': st.lists(op, min_size=1, max_size=25)})
+
+    def run(self, case, ex):
+        schema = case['schema']; begin = sessref.BEGIN[schema]
+        sessref.wipe(ex)
+        sessref.set_clock(ex, T0)
+        clock = [T0]
+        A, B = Sess(ex, schema, 0), Sess(ex, schema, 1)
+        side = {'a': A, 'b': B}
+        other = {'a': 'b', 'b': 'a'}
+        flight = {'a': '', 'b': ''}               # bytes written by that side, not yet fed to the other
+        sent = {'a': [], 'b': []}                 # ids in send order
+        got = {'a': [], 'b': []}                  # (id, possdup) in delivery order at that side's application
+        trace = [schema]
+        wire_logouts = []
+
+        def fail(msg):
+            raise Violation('C21: %s\n  %s' % (msg, '\n  '.join(trace)))
+
+        def absorb(who, o):
+            flight[who] += o.out_raw
+            for d in o.deliv:
+                if d['b'].get(11):
+                    got[who].append((d['b'].get(11), d['h'].get(43) == 'Y'))
+            for m in sessref.split_stream(o.out_raw, begin) if o.out_raw else []:
+                if m.type == '5':
+                    wire_logouts.append((who, m.get(58)))
+
+        def pump():
+            for rounds in range(60):
+                if not flight['a'] and not flight['b']:
+                    return
+                for who in ('a', 'b'):
+                    if flight[who]:
+                        data, flight[who] = flight[who], ''
+                        absorb(other[who], side[other[who]].feed(data))
+            fail('no quiescence after 60 rounds of pumping (messages keep flowing)')
+
+        def connect():
+            absorb('a', A.new('i', 'CLI', 'SRV', 30, 'file:c21a'))
+            absorb('b', B.new('a', 'SRV', 'CLI', 30, 'file:c21b'))
+            pump()
+
+        def teardown(lose):
+            for who in lose:
+                flight[who] = ''
+            # what is still on the wire towards a surviving reader arrives before the connection is seen to be gone
+            for who in ('a', 'b'):
+                if flight[who]:
+                    data, flight[who] = flight[who], ''
+                    o = side[other[who]].feed(data)
+                    for d in o.deliv:
+                        if d['b'].get(11):
+                            got[other[who]].append((d['b'].get(11), d['h'].get(43) == 'Y'))
+            A.delete(); B.delete()
+            flight['a'] = flight['b'] = ''
+
+        connect()
+        cls = set()
+        loss_with_flight = False
+        sends_after_loss = False
+        n = 0
+        for op in case['ops']:
+            clock[0] += 1
+            sessref.set_clock(ex, clock[0])
+            k = op[0]
+            if k in ('a_send', 'b_send'):
+                who = k[0]
+                for _ in range(op[1]):
+                    n += 1
+                    mid = '%s%d' % (who.upper(), n)
+                    sent[who].append(mid)
+                    absorb(who, side[who].send(sessref.nos_spec(mid)))
+                trace.append('%s sends %s' % (who.upper(), sent[who][-op[1]:]))
+                if loss_with_flight:
+                    sends_after_loss = True
+            elif k == 'pump':
+                pump()
+                trace.append('pump -> delivered at A %d, at B %d' % (len(got['a']), len(got['b'])))
+            else:
+                inflight_apps = any('\x0135=D\x01' in flight[w] for w in ('a', 'b'))
+                lose = {'drop': ('a', 'b'), 'restart_a': ('b',), 'restart_b': ('a',)}[k]     # restart of X loses what is in flight towards X
+                lost_apps = any('\x0135=D\x01' in flight[w] for w in lose)
+                trace.append('%s with %d/%d bytes in flight (A->B/B->A)' % (k, len(flight['a']), len(flight['b'])))
+                teardown(lose)
+                connect()
+                cls.add(k)
+                if lost_apps:
+                    loss_with_flight = True
+                    cls.add('loss_in_flight')
+        # quiescence
+        clock[0] += 1
+        sessref.set_clock(ex, clock[0])
+        for who in ('a', 'b'):
+            n += 1
+            mid = '%s%dfinal' % (who.upper(), n)
+            sent[who].append(mid)
+            absorb(who, side[who].send(sessref.nos_spec(mid)))
+        pump()
+        oa, ob = A.obs(), B.obs()
+        trace.append('final: A got %s' % got['a'])
+        trace.append('final: B got %s' % got['b'])
+        if wire_logouts:
+            fail('a Logout was sent: %s' % wire_logouts)
+        for who, o in (('A', oa), ('B', ob)):
+            if o.st not in (sessref.ST_CONTINUOUS,) or o.shut:
+                fail('session %s is in state %s at the end' % (who, sessref.STATE_NAMES[o.st]))
+        for snd in ('a', 'b'):
+            rcv = other[snd]
+            first = []
+            seen = set()
+            for mid, pd in got[rcv]:
+                if mid in seen:
+                    if not pd:
+                        fail('%s was delivered again to %s without PossDupFlag=Y' % (mid, rcv.upper()))
+                else:
+                    seen.add(mid)
+                    first.append(mid)
+            missing = [m for m in sent[snd] if m not in seen]
+            if missing:
+                fail('messages sent by %s never delivered to %s: %s' % (snd.upper(), rcv.upper(), missing))
+            if first != sent[snd]:
+                fail('first deliveries at %s are not in send order: %s, sent %s' % (rcv.upper(), first, sent[snd]))
+        A.delete(); B.delete()
+        return {'nontrivial': loss_with_flight and sends_after_loss, 'classes': sorted(cls), 'key': case, 'sample': {'schedule': trace[:40]}}
+
+
+CHECKS['C21'] = C21
